@@ -215,11 +215,20 @@ def oriented(cmp, left_pred):
 
 
 def flat(block):
-    """Statements of a block in execution order with guard chains linearised: the loader nests what follows a leaving guard
-    (`if c: ...; raise/return/break/continue`) into its else branch; rules that scan "the statements of this block" want the sequence
-    the author wrote.  Yields the guard `If` itself and then the statements of its else branch (recursively)."""
+    """Statements of a block in execution order with guard chains linearised: the loader turns a leaving guard followed by REST into an
+    if/else (with a positive test), so REST sits in whichever branch does not leave.  Rules that scan "the statements of this block" want
+    the sequence the author wrote: yields the guard `If` itself and then the statements of its non-leaving branch (recursively)."""
+    jumps = (ast.Raise, ast.Return, ast.Break, ast.Continue)
     for st in block:
         yield st
-        if isinstance(st, ast.If) and st.orelse and st.body and isinstance(st.body[-1], (ast.Raise, ast.Return, ast.Break, ast.Continue)) \
-                and not (len(st.orelse) == 1 and isinstance(st.orelse[0], ast.If) and False):
-            yield from flat(st.orelse)
+        if isinstance(st, ast.If) and st.orelse and st.body:
+            b_leaves = isinstance(st.body[-1], jumps)
+            o_leaves = isinstance(st.orelse[-1], jumps)
+            if b_leaves and not o_leaves:
+                yield from flat(st.orelse)
+            elif o_leaves and not b_leaves:
+                yield from flat(st.body)
+            elif b_leaves and o_leaves and isinstance(st.body[-1], (ast.Raise,)) and not isinstance(st.orelse[-1], ast.Raise):
+                yield from flat(st.orelse)
+            elif b_leaves and o_leaves and isinstance(st.orelse[-1], (ast.Raise,)) and not isinstance(st.body[-1], ast.Raise):
+                yield from flat(st.body)
